@@ -271,3 +271,100 @@ func (c *Cluster) onlyOrphansKeepBusy(live []*SimNode) string {
 	}
 	return found
 }
+
+func init() {
+	profiles["C11"] = &profile{
+		config: func(r *RNG, thorough bool) *RunConfig {
+			cfg := baseConfig("C11", r, thorough)
+			cfg.N0 = []int{2, 3, 3, 4, 4}[r.Intn(5)]
+			cfg.Stores = make([]string, cfg.N0)
+			for i := range cfg.Stores {
+				cfg.Stores[i] = "badger"
+				if i > 0 && r.Bool(0.25) {
+					cfg.Stores[i] = "inmem"
+				}
+			}
+			if thorough {
+				cfg.Steps = r.Range(40, 200)
+			} else {
+				cfg.Steps = r.Range(30, 120)
+			}
+			cfg.PCrash = 0.03
+			cfg.TornP = 0.5
+			cfg.Shadow = 30
+			cfg.FairSuffix = r.Bool(0.5)
+			withMembership(cfg, r, 0.3)
+			return cfg
+		},
+		run: func(c *Cluster, spec *runSpec) {
+			c.installShadowSampling()
+			clusterRun(c, spec)
+		},
+	}
+}
+
+// installShadowSampling arms the crash-point enumeration of C11: at sampled
+// store points of every persistent node - and at every store point of a few
+// whole steps - the on-disk image is bootstrapped by a throw-away node and the
+// recovery oracle evaluated, without disturbing the run.
+func (c *Cluster) installShadowSampling() {
+	budget := c.cfg.Shadow
+	// steps during which every store point is checked
+	r := NewRNG(Mix(c.seed, 0x73686477))
+	full := map[int]bool{}
+	for i := 0; i < 3; i++ {
+		full[r.Range(1, maxInt(c.cfg.Steps, 2))] = true
+	}
+	perStep := 0
+	lastStep := -1
+	c.storePointHook = func(n *SimNode, kind, phase string) {
+		if n.ffDone || budget <= 0 {
+			return
+		}
+		if c.stepNo != lastStep {
+			lastStep = c.stepNo
+			perStep = 0
+		}
+		pr := NewRNG(Mix(c.seed^0x7370, uint64(n.idx)<<40|uint64(n.storePoints)))
+		take := false
+		if full[c.stepNo] && perStep < 40 {
+			take = true
+		} else if pr.Bool(0.01) {
+			take = true
+		}
+		if !take {
+			return
+		}
+		perStep++
+		budget--
+		torn := 0.0
+		if phase == "post" && pr.Bool(c.cfg.TornP) {
+			torn = 0.05 + 0.9*pr.Float()
+		}
+		c.shadowBootstrap(n, torn, phase)
+	}
+}
+
+func init() {
+	profiles["C13"] = &profile{
+		config: func(r *RNG, thorough bool) *RunConfig {
+			cfg := baseConfig("C13", r, thorough)
+			cfg.N0 = []int{2, 3, 3, 4, 4, 5}[r.Intn(6)]
+			cfg.Stores = make([]string, cfg.N0)
+			for i := range cfg.Stores {
+				cfg.Stores[i] = "inmem"
+			}
+			mixStores(cfg, r, 0.2)
+			cfg.Steps += 150
+			cfg.FastSyncLate = true
+			cfg.PJoin = 0.02
+			cfg.PLeave = 0.008
+			cfg.MaxJoins = r.Range(1, 3)
+			cfg.MaxLeaves = r.Range(0, 2)
+			cfg.FairSuffix = r.Bool(0.6)
+			cfg.PSubmit = 0.3
+			return cfg
+		},
+		run: clusterRun,
+	}
+}
